@@ -106,7 +106,7 @@ func (u *Unit) handlerNames(v ssa.Value, seen map[ssa.Value]bool) []string {
 		}
 		return out
 	case *ssa.Parameter:
-		return []string{"param:" + x.Name() + "@" + u.qualName(x.Parent())}
+		return []string{"param:" + u.VarName(x) + "@" + u.qualName(x.Parent())}
 	}
 	return []string{"unresolved:" + u.Describe(v)}
 }
